@@ -19,6 +19,9 @@ the (three) messages of one communication round — with a single deviating help
   (`rx − r̂·x`) of the k-th recorded wire: `δ′` for an upgrade, `D_a·y + δ′ − r̂·δ` for a multiplication
   (`macTerms`); `additive_attack_T_flat`: `= Σ_k α̂_k(δ′_k − r̂·δ_k) + …` when no altered MAC feeds the left operand of
   a later multiplication; `single_gate_attack_T`: one attacked gate.
+* `accumulateN_T` — the vectorised (`N`-lane) `accumulate_macs` contributes `Σ_lane α̂_lane·D_lane` (independent per-lane
+  coefficients); `shared_coefficient_counterexample`: with one coefficient per record a zero-sum lane attack leaves
+  `T` unchanged (both in `Props/C04Lanes.lean`).
 * `attack_accept_iff` — validation returns `Ok` iff `ρ̂·T + δ_cz = 0`; `attack_accept_iff_domain`: iff `T = 0 ∨ ρ̂ = 0`.
 * `reveal_only_if_equal`, `reveal_two_copies`, `reveal_two_copies_mac` — two-copy opening.
 * `record_ids_disjoint` — `3·o+{0,1,2}`, `2·o+{0,1}`, `o`.
